@@ -20,7 +20,7 @@ variants, tuple patterns, or-patterns, `Partial { field: p, field, .. }`, match 
 rests on the correspondence alone for that table) and is not by itself an alarm."""
 import os, re, sys, json
 ROOT = os.path.dirname(os.path.dirname(os.path.abspath(__file__)))
-SRC = '/repo/src/range.rs'
+SRC = os.path.join(os.environ.get('VERIF_REPO', '/repo'), 'src', 'range.rs')
 GEN = os.path.join(ROOT, 'coq', 'Gen')
 
 class Unsupported(Exception): pass
